@@ -16,7 +16,7 @@ for d in seeded/*/; do
   s=$(date +%s)
   VERIF_REPO=$WT VERIF_NO_EVIDENCE=1 ./check $pid --tier $tier > /tmp/seeded_$id.log 2>&1; rc=$?
   e=$(date +%s)
-  first=$(grep -A1 -m1 "^VIOLATION" /tmp/seeded_$id.log | tail -1 | cut -c1-220 | tr '\t' ' ')
+  first=$(grep -A1 -m1 "^VIOLATION" /tmp/seeded_$id.log | tail -1 | tr -cd '[:print:]' | cut -c1-220)
   det=no; [ $rc -eq 1 ] && grep -q "^VIOLATION property=$pid" /tmp/seeded_$id.log && det=yes
   [ $rc -ge 2 ] && det="machinery-error"
   echo -e "$id\t$pid\t$rc\t$det\t$((e-s))\t$first" | tee -a $out
